@@ -25,6 +25,19 @@ def model():
     return _m
 
 
+_o = None
+
+
+def other():
+    global _o
+    if _o is None:
+        m = Mininec(14.0, [Wire(2, 1, 1, 1, 2, 2, 3, 0.001)])
+        m.register_source(Excitation(1 + 0j), 0)
+        m.compute()
+        _o = m
+    return _o
+
+
 def close(a, b):
     return abs(a - b) <= 1e-9 * max(1.0, abs(a), abs(b))
 
@@ -58,6 +71,8 @@ def check_record(args):
             raise C.Machinery('harness and Grid.tla disagree on the expected points')
         # ---------------- near field (API)
         m.compute_near_field(start, inc, cnt)
+        # another model of the same process computes another grid in between: results belong to the object
+        other().compute_near_field((0.5, 0.5, 9.0), (1.0, 1.0, 1.0), (2, 1, 1))
         got = np.array(m.near_field_coord).T
         out['npts'] = len(exp)
         if got.shape != (len(exp), 3):
